@@ -308,6 +308,8 @@ def run_shard(spec):
     if spec["shard"] == 2:
         cases[0].update(gen_fixed("popen", "thread", "endmarker_raises", "sigkill"))
         cases[1].update(gen_fixed("python", "main_thread_only", "endmarker_raises", "os_exit"))
+        cases[2].update(gen_fixed("popen", "thread", "endmarker_raises", "sigkill", stderr="closed"))
+        cases[3].update(gen_fixed("via", "thread", "endmarker_raises", "close_connection", stderr="pipe_reader_gone"))
     if spec["shard"] == 1:
         cases[0].update(gen_fixed("python", "thread", "busy", "sigkill"))
         cases[1].update(gen_fixed("popen", "thread", "blocked", "close_connection"))
